@@ -317,6 +317,89 @@ theorem loop_forest (cls : Nat → Cls) (f : Forest) :
         (by omega) h1
       simpa [List.append_assoc] using h2
 
+theorem take_take_append (n : Nat) (a b : List Nat) :
+    (a.take n ++ b).take n = (a ++ b).take n := by
+  by_cases h : a.length ≤ n
+  · rw [List.take_of_length_le h]
+  · have h' : n ≤ a.length := by omega
+    rw [List.take_append_of_le_length (by simp; omega), List.take_take, Nat.min_self,
+      List.take_append_of_le_length h']
+
+/-- the forest lemma with the MAX_PAGES cut: the loop emits the leaves in document order until
+the list is full -/
+theorem loop_forest_take (cls : Nat → Cls) (f : Forest) :
+    ∀ (fuel : Nat) (st vis out r : List Nat), Agrees cls f → f.ids.Nodup →
+      (∀ x ∈ f.ids, x ∉ vis) → out.length ≤ MAX_PAGES →
+      loop cls fuel st (f.ids.reverse ++ vis) ((out ++ f.leaves).take MAX_PAGES) = some r →
+      loop cls (fuel + f.size) (f.roots ++ st) vis out = some r := by
+  induction f with
+  | nil =>
+    intro fuel st vis out r _ _ _ hm h
+    simp only [Forest.ids, Forest.leaves, Forest.size, Forest.roots, List.append_nil,
+      List.reverse_nil, List.nil_append, Nat.add_zero] at h ⊢
+    rwa [List.take_of_length_le hm] at h
+  | leaf id rest ih =>
+    intro fuel st vis out r ha hn hv hm h
+    simp only [Forest.ids, Forest.leaves, Forest.size, Forest.roots] at *
+    obtain ⟨hc, har⟩ := ha
+    have hn' := List.nodup_cons.mp hn
+    have hidv : id ∉ vis := hv id List.mem_cons_self
+    have e : fuel + (rest.size + 1) = (fuel + rest.size) + 1 := by omega
+    rw [e]
+    simp only [List.cons_append, loop]
+    by_cases hsat : MAX_PAGES ≤ out.length
+    · simp only [hsat, if_true]
+      have ht : (out ++ id :: rest.leaves).take MAX_PAGES = out := by
+        have : out.length = MAX_PAGES := by omega
+        rw [List.take_append_of_le_length (by omega), ← this, List.take_length]
+      rw [ht] at h
+      rw [loop_saturated cls _ _ _ _ _ hsat h]
+    · simp only [hsat, if_false, hidv, hc]
+      apply ih fuel st (id :: vis) (out ++ [id]) r har hn'.2
+      · intro x hx hx2
+        cases hx2 with
+        | head => exact hn'.1 hx
+        | tail _ h2 => exact hv x (List.mem_cons_of_mem _ hx) h2
+      · simp; omega
+      · simpa [List.reverse_cons, List.append_assoc] using h
+  | node id ch rest ihc ihr =>
+    intro fuel st vis out r ha hn hv hm h
+    simp only [Forest.ids, Forest.leaves, Forest.size, Forest.roots] at *
+    obtain ⟨hc, hac, har⟩ := ha
+    have hn' := List.nodup_cons.mp hn
+    have hnn := List.nodup_append.mp hn'.2
+    have hidv : id ∉ vis := hv id List.mem_cons_self
+    have e : fuel + (rest.size + ch.size + 1) = ((fuel + rest.size) + ch.size) + 1 := by omega
+    rw [e]
+    simp only [List.cons_append, loop]
+    by_cases hsat : MAX_PAGES ≤ out.length
+    · simp only [hsat, if_true]
+      have ht : (out ++ (ch.leaves ++ rest.leaves)).take MAX_PAGES = out := by
+        have : out.length = MAX_PAGES := by omega
+        rw [List.take_append_of_le_length (by omega), ← this, List.take_length]
+      rw [ht] at h
+      rw [loop_saturated cls _ _ _ _ _ hsat h]
+    · simp only [hsat, if_false, hidv, hc]
+      have hch_v : ∀ x ∈ ch.ids, x ∉ id :: vis := by
+        intro x hx hx2
+        cases hx2 with
+        | head => exact hn'.1 (List.mem_append_left _ hx)
+        | tail _ h2 => exact hv x (List.mem_cons_of_mem _ (List.mem_append_left _ hx)) h2
+      have hr_v : ∀ x ∈ rest.ids, x ∉ ch.ids.reverse ++ id :: vis := by
+        intro x hx hx2
+        rcases List.mem_append.mp hx2 with h2 | h2
+        · exact hnn.2.2 x (List.mem_reverse.mp h2) x hx rfl
+        · cases h2 with
+          | head => exact hn'.1 (List.mem_append_right _ hx)
+          | tail _ h3 => exact hv x (List.mem_cons_of_mem _ (List.mem_append_right _ hx)) h3
+      have h1 := ihr fuel st (ch.ids.reverse ++ id :: vis) ((out ++ ch.leaves).take MAX_PAGES) r har
+        hnn.2.1 hr_v (by simp; omega)
+        (by
+          rw [take_take_append]
+          simpa [List.reverse_cons, List.reverse_append, List.append_assoc] using h)
+      have h2 := ihc (fuel + rest.size) (rest.roots ++ st) (id :: vis) out r hac hnn.1 hch_v hm h1
+      simpa [List.append_assoc] using h2
+
 /-! ### the /Parent walk -/
 
 def unvisited (g : Graph) (vis : List Nat) : Nat :=
